@@ -197,8 +197,8 @@ Section Model.
     match n_final o with
     | Some n =>
       if Nat.eqb (psize (s_pop st)) n then (s_pop st, s_g st, h_nmut (s_hist st))
-      else let '(p1, g1) := resample (s_g st) (s_pop st) (one N) (Some n) in
-           let '(p2, g2) := mutate_o g1 p1 (one N) true in (p2, g2, S (h_nmut (s_hist st)))
+      else let '(p1, g1) := resample (s_g st) (s_pop st) (s_beta st) (Some n) in      (* at the temperature the loop ended at (repair F65) *)
+           let '(p2, g2) := mutate_o g1 p1 (s_beta st) true in (p2, g2, S (h_nmut (s_hist st)))
     | None => (s_pop st, s_g st, h_nmut (s_hist st))
     end.
 
